@@ -232,11 +232,28 @@ def check(rep):
               "C[N+](=O)[O-]", "CC(=O)OC", "CC(=O)N(C)C", "COC", "CC=O", "CN", "c1ccccc1O", "c1ccccc1N", "FC(F)(F)C", "ClC(Cl)Cl", "CC(C)=O", "C#C", "CN=C=O", "c1ccc2[nH]ccc2c1",
               "CCC(C){[>][<]CC([>])c1cscn1[<]}|uniform(300, 500)|[H]"]
     probe_lines, probe_expect = [], []
+    # every type a rule can assign has a parameter set: otherwise typing an atom that matches the rule ends in a bare KeyError, which is
+    # neither an assignment nor the dedicated error (exhaustive over the bundled table)
+    for rule, typ in a0._rule_dict.items():
+        try:
+            a0.get_ffparam(a0.get_type(typ))
+        except Exception as e:  # noqa
+            rep.fail("oracle", f"rule {rule} assigns type {typ}, for which the bundled parameter table gives no parameter set ({type(e).__name__}): typing a matching atom "
+                     "is neither total nor refused with FfAssignmentError", {"rule": rule, "type": typ}, expected="a parameter set", observed=fw.exc_class(e))
+    PROBES += ["C[Si](C)(C)C", "C[Si](C)(C)C[Si](C)(C)C", "[Cu+2]", "[Fe+2]", "[Na+]", "[Cl-]", "[Zn+2]", "[Mg+2]", "[K+]", "[Li+]", "[Ca+2]", "[F-]", "[Br-]", "[I-]",
+               "[H]{[>][<]CC([>])c1ccccc1[<]}|gauss(300, 30)|CCC[Si](C)(C)C"]
     for smi in PROBES:
         try:
             mg = gbigsmiles.Molecule(smi).generate(rng=np.random.default_rng(1))
-            d, mol = mg.forcefield_types
         except Exception:
+            continue
+        try:
+            d, mol = mg.forcefield_types
+        except ffh.FfAssignmentError:
+            continue
+        except Exception as e:  # noqa
+            rep.fail("oracle", f"{smi}: typing raised {type(e).__name__}: {str(e)[:60]} -- neither a parameter set per atom nor FfAssignmentError", {"text": smi},
+                     expected="assignment or FfAssignmentError", observed=fw.exc_class(e))
             continue
         evaluations += 1
         for a in mol.GetAtoms():
